@@ -43,9 +43,9 @@ import (
 )
 
 const (
-	tblMax        = 48              // occurrences listed per schedule table
-	settleTimeout = 4 * time.Second // quiescence watchdog
-	callTimeout   = 3 * time.Second // Schedule / Release must return within this ("promptly")
+	tblMax        = 48                      // occurrences listed per schedule table
+	settleTimeout = 1500 * time.Millisecond // quiescence watchdog
+	callTimeout   = 2 * time.Second         // Schedule / Release must return within this ("promptly")
 )
 
 // ---- clock wrapper: counts the scheduler's reads of its clock (used only to detect a spinning main loop) ----
